@@ -59,6 +59,8 @@ def entry_annotation(e):
             alt1 = dl.spec_spelling([gc.tok_from_json(j) for j in e["alt1"]])
             leaf = Union[Shaped[np.ndarray, alt1], leaf]
         return PyTree[leaf, e["structure"]] if e.get("structure") else PyTree[leaf]
+    if e["kind"] == "unrepr":
+        return Unprintable
     if e["kind"] == "cfg":
         # a class created afresh for every decorated function, always under the same name: annotations that print
         # alike but are different objects
@@ -66,7 +68,17 @@ def entry_annotation(e):
     raise AssertionError(e)
 
 
+class Unprintable:
+    """A well-typed bystander argument whose repr() raises (a closed handle, a half-initialised object): the error
+    message has to be produced all the same."""
+
+    def __repr__(self):
+        raise RuntimeError("this object cannot be printed")
+
+
 def entry_value(e, ns=None):
+    if e["kind"] == "unrepr":
+        return Unprintable()
     if e["kind"] == "cfg":
         return ns[f"A_{e['name']}"]()
     if e["kind"] == "pytree":
@@ -76,7 +88,7 @@ def entry_value(e, ns=None):
 
 def entry_model(e, m):
     """-> (allowed, new ctx, tentative, new_struct_name)"""
-    if e["kind"] == "cfg":
+    if e["kind"] in ("cfg", "unrepr"):
         return {dl.TRUE}, m, 0, None
     ms = gc.meanings_of(e)
     if e["kind"] in ("array", "union"):
@@ -132,7 +144,7 @@ def check_case(ctx, case):
     if w["stage"] == "unspecified":
         ctx.classes["skipped-unspecified"] += 1
         return
-    desc = {"params": [(p["name"], p["kind"], gc.spec_of(p) if p["kind"] != "cfg" else "Cfg", p.get("structure"), p.get("shape", p.get("tree"))) for p in case["params"]],
+    desc = {"params": [(p["name"], p["kind"], gc.spec_of(p) if p["kind"] not in ("cfg", "unrepr") else p["kind"], p.get("structure"), p.get("shape", p.get("tree"))) for p in case["params"]],
             "ret": (gc.spec_of(case["ret"]), case["ret"]["shape"]) if case["ret"] else None, "flag": case["flag"]}
     for ck in ("typeguard", "beartype"):
         fn, ns = build(case, ck, case["fname"])
@@ -250,6 +262,9 @@ def c13_case(draw):
     if draw(st.integers(0, 2)) == 0:
         pos = draw(st.integers(0, len(case["params"])))
         case["params"].insert(pos, {"name": "cfg", "kind": "cfg", "tokens": []})
+    if draw(st.integers(0, 3)) == 0:
+        pos = draw(st.integers(0, len(case["params"])))
+        case["params"].insert(pos, {"name": "handle", "kind": "unrepr", "tokens": []})
     case["flag"] = draw(st.sampled_from([True, False]))
     case["fname"] = draw(st.sampled_from(FNAMES))
     return case
